@@ -266,9 +266,34 @@ def translate_routing(fn):
 CMPZ = {'le': '<=?', 'lt': '<?', 'ge': '>=?', 'gt': '>?'}
 
 
+def check_root_flags(tree):
+    """every call of _build_tree from outside _build_tree builds a ROOT (is_root=True); the two recursive calls pass is_root=False.
+    The Coq accounting model (rtree_okb true ...) and the refill rule ('no refill when the tree has a single leaf') rely on it."""
+    cls = next(n for n in tree.body if isinstance(n, ast.ClassDef) and n.name == 'xRFM')
+    seen = {'outside': 0, 'recursive': 0}
+    for fn in cls.body:
+        if not isinstance(fn, ast.FunctionDef):
+            continue
+        for c in ast.walk(fn):
+            if isinstance(c, ast.Call) and ast.unparse(c.func) == 'self._build_tree':
+                kw = {k.arg: ast.unparse(k.value) for k in c.keywords}
+                if fn.name == '_build_tree':
+                    if kw.get('is_root') != 'False':
+                        raise TranslationError(f'recursive _build_tree call with is_root={kw.get("is_root")}')
+                    seen['recursive'] += 1
+                else:
+                    if kw.get('is_root') != 'True':
+                        raise TranslationError(f'{fn.name} builds a tree with is_root={kw.get("is_root")} (a root must be built with is_root=True)')
+                    seen['outside'] += 1
+    if seen['recursive'] != 2 or seen['outside'] < 2:
+        raise TranslationError(f'unexpected _build_tree call sites: {seen}')
+    return seen
+
+
 def generate():
     """returns Coq source text (module SplitArith_gen) — raises TranslationError when the source left the subset"""
     tree = ast.parse(_src())
+    check_root_flags(tree)
     bs = translate_balanced_split(_method(tree, 'xRFM', '_get_balanced_split'))
     rf = translate_refill(_method(tree, 'xRFM', '_refill_val_set'))
     bt = translate_build_tree(_method(tree, 'xRFM', '_build_tree'))
